@@ -103,10 +103,10 @@ CHECKS["C05"] = {
         "thorough": [{"pkg": "internal/pfcp", "entries": ["ZZ_C05_*"], "witnesses": 8, "max_paths": 2000000}],
     },
     "covers": {"all": ["ZZ_C05_DeleteReuseReassoc:C05.reuse2.ended-by-seid0", "ZZ_C05_Modify:C05.mod.done", "ZZ_C05_Delete:C05.del.done", "ZZ_C05_Assoc:C05.assoc.done", "ZZ_C05_ReportRsp:C05.reportrsp.done",
-                       "ZZ_C05_Establish:C05.est.done", "ZZ_C05_Reports:C05.reports.done", "ZZ_C05_Takeover:C05.takeover.done",
+                       "ZZ_C05_ReportRsp:C05.reportrsp.nobody", "ZZ_C05_Establish:C05.est.done", "ZZ_C05_Reports:C05.reports.done", "ZZ_C05_Takeover:C05.takeover.done",
                        "ZZ_C05_DeleteReuseReassoc:C05.reuse2.done"]},
     "bounds": {
-        "quick": "frame check around one handler step: bystander session B (rules of all five kinds, one buffered packet, UR-SEQN 1) and acting session A on the same or the other node whose five rule ids and CP SEID are symbolic and may equal B's; steps: Modification with one Create/Update/Remove/Query IE of any kind and symbolic id, Deletion followed by SEID reuse (the new session then buffers and pops a packet of its own under A's PDR id), Association Setup of either node, SEID-0 report response, Establishment, kernel buffer/usage notification, takeover (to an unused node id, to the other associated node's id or to the id the node already has; the request sent once or twice) followed by re-association of any of three node ids; the two nodes are on different hosts or on one host with different source ports; in the delete+reuse+re-association history the first session ends by a Deletion Request or by a SEID-0 report response",
+        "quick": "frame check around one handler step: bystander session B (rules of all five kinds, one buffered packet, UR-SEQN 1) and acting session A on the same or the other node whose five rule ids and CP SEID are symbolic and may equal B's; steps: Modification with one Create/Update/Remove/Query IE of any kind and symbolic id, Deletion followed by SEID reuse (the new session then buffers and pops a packet of its own under A's PDR id), Association Setup of either node, SEID-0 report response (from either node's address or a third endpoint, answering a report that named A's or B's control-plane SEID: for A, or for nobody), Establishment, kernel buffer/usage notification, takeover (to an unused node id, to the other associated node's id or to the id the node already has; the request sent once or twice) followed by re-association of any of three node ids; the two nodes are on different hosts or on one host with different source ports; in the delete+reuse+re-association history the first session ends by a Deletion Request or by a SEID-0 report response",
         "thorough": "same (the single-step bound is already complete over ids and SEIDs)",
     },
     "outside": "more than two sessions / two nodes; multi-step histories other than takeover+re-association and delete+reuse; B and A sharing both CP SEID and peer (then 'the session the report was sent for' is not determined by the message)",
